@@ -116,7 +116,7 @@ static struct wcmd *sw_table(int n)
 static void sw_caps(int cap, int shared)
 {
         W.cap = cap; W.shared = shared;
-        W.buf_size = shared ? 2 * cap : cap;
+        W.buf_size = shared == 2 ? 2 * cap + 1 : shared ? 2 * cap : cap;   /* shared 2: odd-sized shared buffer */
         W.ubuf_size = cap;
 }
 
